@@ -109,7 +109,7 @@ def run_cat(case, ctx, g):
     ref = torch.cat([dn.D(t) for t in ts], dim)
     bound = sum(gens.abs_bound(t) for t in ts)
     scale = sum(dn.s_rep(t) for t in ts)
-    res = ctx.lib('cat', torchtt.cat, tuple(ts), dim)
+    res = ctx.lib('cat', torchtt.cat, tuple(ts) if case['seed'] % 2 else list(ts), dim)
     if not expect_tt(ctx, key, res, what):
         return
     try:
@@ -193,7 +193,7 @@ def run_pad(case, ctx, g):
         corner[sl_lead] = True
         corner[sl_trail] = True
         mixed = ~(interior | corner)
-    res = ctx.lib('pad', torchtt.pad, x, padding, value)
+    res = ctx.lib('pad', torchtt.pad, x, padding if case['seed'] % 3 else [list(p_) for p_ in padding], value)
     if not expect_tt(ctx, key, res, what):
         return
     try:
